@@ -207,7 +207,7 @@ def check(prog, rep, tier):
                 qs = [i for i, e in enumerate(p.events) if e.kind == "call" and e.name == "<slot>" and strip_epochs(e.slot) == slot]
                 first = p.events[tot[0]].value if tot else None
                 wantt = canon(("bin", sign, ("f", SELF, TOTAL, 0), ("p", "num_els")))
-                if not tot or not qs or tot[0] > qs[0] or unclamped(canon(first)) != wantt:
+                if not tot or not qs or tot[0] > qs[0] or unclamped(canon(first), (-2**63, 2**63 - 1)) != wantt:
                     rep.bad("C02.total-before-query", f"{CTX}.{n}", "total update",
                             f"the element total is not moved by {sign}num_els before the query runs (total {'= ' + nshow(first) if first else 'not updated'})", f.where())
                     good = False
